@@ -191,7 +191,8 @@ def pmap(fn: Callable, items: list, procs: int = NPROC, chunk: int | None = None
         return [fn(x) for x in items]
     cs = chunk or max(1, len(items) // (procs * 8))
     with mp.get_context("fork").Pool(procs) as pool:
-        return pool.map(fn, items, chunksize=cs)
+        # bounded: an item that never returns (a generator that loops) must end the check as a machinery failure, not hang it
+        return pool.map_async(fn, items, chunksize=cs).get(timeout=float(os.environ.get("VERIF_PMAP_TIMEOUT", "3000")))
 
 
 def sample(rng, items: list, k: int) -> list:
